@@ -12,9 +12,10 @@ LEVEL = "exploration"
 CODE = ["yowsup/stacks/yowstack.py:YowStack.__init__/_construct/send/receive/emitEvent/broadcastEvent/execDetached/loop/getLayerInterface/getLayer",
         "yowsup/stacks/yowstack.py:YowStackBuilder.push/pop/build/getDefaultLayers/getDefaultStack/getProtocolLayers/getCoreLayers",
         "yowsup/layers/__init__.py:YowLayer.emitEvent/broadcastEvent/onEvent/toLower/toUpper, YowParallelLayer.*, YowLayerEvent"]
-BOUNDS = {"quick": "(dataflow: plus a send refused by any one layer below the top, followed by another send) stack depth 1..4, each position plain | group of 2 | group of 3; 3 declaration styles x 2 order conventions; every emitter x consumer position, detached and normal; "
+BOUNDS = {"quick": "[+ addPostConstructLayer with 1-2 layers on depth 1..3] " 
+                   "(dataflow: plus a send refused by any one layer below the top, followed by another send) stack depth 1..4, each position plain | group of 2 | group of 3; 3 declaration styles x 2 order conventions; every emitter x consumer position, detached and normal; "
                    "all 16 getDefaultLayers and all 64 getDefaultStack argument combinations; builder push/pop sequences up to 4",
-          "thorough": "depth 1..6, positions plain | group of 1 | group of 2 | group of 4 (group size only matters at emitter/consumer positions: stated pruning)"}
+          "thorough": "[+ post-construct on depth 1..4] depth 1..6, positions plain | group of 1 | group of 2 | group of 4 (group size only matters at emitter/consumer positions: stated pruning)"}
 OUTSIDE = ["events emitted by a member of a parallel group are only required to be seen at most once by its siblings (the statement leaves sibling delivery open)",
            "stacks deeper than the bound"]
 ASSUMPTIONS = ["one run of the stack's loop body stands for 'the stack's loop runs' (time.sleep stubbed)"]
